@@ -527,7 +527,14 @@ func (e *ctrlEnv) reg(name string) bool {
 	e.mu.Unlock()
 	cc := session.NewControlConnection(name, nil, nil, "tcp")
 	cc.CreatedAt = time.Unix(1700000000+seq, 0)
+	if seq%2 == 0 {
+		// every second connection is an authenticated one (client index maintained on insert / eviction)
+		cc.Authenticated, cc.ClientID = true, 70000000+seq
+	}
 	e.sm.RegisterControlConnection(cc)
+	if cc.Authenticated && e.sm.GetControlConnection(name) == cc && e.sm.GetControlConnectionByClientID(cc.ClientID) != cc {
+		return false
+	}
 	return e.sm.GetControlConnection(name) == cc
 }
 func (e *ctrlEnv) setup() error {
@@ -774,20 +781,36 @@ func (e *ctrlxEnv) victimClosed(name string) bool {
 
 type tunEnv struct {
 	base
-	r *session.TunnelRegistry
+	r     *session.TunnelRegistry
+	sm    *session.SessionManager // limit 0 only
+	mu    sync.Mutex
+	names []string
 }
 
 func (e *tunEnv) setup() error {
 	e.r = session.NewTunnelRegistry(&session.TunnelRegistryConfig{MaxTunnels: e.k.limit})
+	if e.k.limit == 0 {
+		// the registry as the server builds it: SessionManager configures no tunnel cap
+		mem := storage.NewMemoryStorage(e.ctx)
+		e.sm = session.NewSessionManagerWithConfig(idgen.NewIDManager(mem, e.ctx), e.ctx, &session.SessionConfig{
+			HeartbeatTimeout: time.Hour, CleanupInterval: time.Hour})
+	}
 	for i := 0; i < e.k.pre; i++ {
-		n := fmt.Sprintf("p%d", i)
-		if err := e.r.Register(&session.TunnelConnection{ConnID: n, TunnelID: "t-" + n}); err != nil {
-			return err
+		if ok, _ := e.admit(nil, fmt.Sprintf("p%d", i)); !ok {
+			return fmt.Errorf("prefill refused")
 		}
 	}
 	return nil
 }
 func (e *tunEnv) admit(th *thread, name string) (bool, string) {
+	if e.sm != nil {
+		tc := &session.TunnelConnection{ConnID: name, TunnelID: "t-" + name}
+		e.mu.Lock()
+		e.names = append(e.names, name)
+		e.mu.Unlock()
+		e.sm.RegisterTunnelConnection(tc)
+		return e.sm.GetTunnelConnectionByConnID(name) == tc, ""
+	}
 	err := e.r.Register(&session.TunnelConnection{ConnID: name, TunnelID: "t-" + name})
 	if err != nil {
 		if coreerrors.IsCode(err, coreerrors.CodeResourceExhausted) {
@@ -798,13 +821,33 @@ func (e *tunEnv) admit(th *thread, name string) (bool, string) {
 	return true, ""
 }
 func (e *tunEnv) release(th *thread, name string) bool {
+	if e.sm != nil {
+		ok := e.sm.GetTunnelConnectionByConnID(name) != nil
+		e.sm.RemoveTunnelConnection(name)
+		return ok
+	}
 	ok := e.r.GetByConnID(name) != nil
 	e.r.Remove(name)
 	return ok
 }
-func (e *tunEnv) occupancy() int { return e.r.Count() }
+func (e *tunEnv) occupancy() int {
+	if e.sm != nil {
+		return e.sm.GetConnectionStats().TunnelConnections
+	}
+	return e.r.Count()
+}
 func (e *tunEnv) items() []string {
 	var r []string
+	if e.sm != nil {
+		e.mu.Lock()
+		defer e.mu.Unlock()
+		for _, n := range e.names {
+			if e.sm.GetTunnelConnectionByConnID(n) != nil {
+				r = append(r, n)
+			}
+		}
+		return r
+	}
 	for _, c := range e.r.List() {
 		r = append(r, c.ConnID)
 	}
@@ -814,6 +857,14 @@ func (e *tunEnv) digest() string {
 	it := e.items()
 	sort.Strings(it)
 	var t []string
+	if e.sm != nil {
+		for _, n := range it {
+			if e.sm.GetTunnelConnectionByTunnelID("t-"+n) != nil {
+				t = append(t, "t-"+n)
+			}
+		}
+		return fmt.Sprint(it, t)
+	}
 	for _, c := range e.r.List() {
 		if e.r.GetByTunnelID(c.TunnelID) != nil {
 			t = append(t, c.TunnelID)
@@ -821,6 +872,12 @@ func (e *tunEnv) digest() string {
 	}
 	sort.Strings(t)
 	return fmt.Sprint(it, t)
+}
+func (e *tunEnv) close() {
+	if e.sm != nil {
+		e.sm.Close()
+	}
+	e.cancel()
 }
 
 // ---- map / mapu : the client-side mapping handler
